@@ -28,6 +28,8 @@ type Solver struct {
 	Errors  int
 	Unknown int
 	timeout int
+	seq     int
+	cur     int // timeout currently in force (0 = timeout)
 	Lost     bool
 	Restarts int
 	logf    *os.File
@@ -68,6 +70,7 @@ func (s *Solver) start() error {
 	s.defined = []map[int]bool{{}}
 	s.decl = []map[string]bool{{}}
 	s.lines = [][]string{{}}
+	s.cur = 0
 	s.raw("(set-option :print-success false)")
 	s.raw(fmt.Sprintf("(set-option :timeout %d)", s.timeout))
 	return nil
@@ -98,6 +101,19 @@ func (s *Solver) line(l string) {
 	s.raw(l)
 }
 
+// Fresh replaces the solver process by a new one with an empty context. Used
+// after an "unknown": a z3 context whose check-sat was interrupted by the
+// timeout is not trusted for further queries.
+func (s *Solver) Fresh() {
+	if s.cmd != nil {
+		s.in.Close()
+		s.cmd.Process.Kill()
+		s.cmd.Wait()
+	}
+	s.start()
+	s.Restarts++
+}
+
 // Reset clears every assertion and declaration (back to an empty context).
 func (s *Solver) Reset() {
 	s.raw("(reset)")
@@ -107,6 +123,15 @@ func (s *Solver) Reset() {
 	s.decl = []map[string]bool{{}}
 	s.lines = [][]string{{}}
 }
+
+// SetTimeout changes the soft per-query timeout (ms) of the running process.
+func (s *Solver) SetTimeout(ms int) {
+	s.cur = ms
+	s.raw(fmt.Sprintf("(set-option :timeout %d)", ms))
+}
+
+// BaseTimeout is the configured per-query timeout (ms).
+func (s *Solver) BaseTimeout() int { return s.timeout }
 
 func (s *Solver) Push() {
 	s.raw("(push 1)")
@@ -250,35 +275,70 @@ func (s *Solver) Check(assume *Term) string {
 	return res
 }
 
+// sync sends an echo marker and reads every output line up to it, so that the
+// answer to a command can never be confused with a late or extra line of an
+// earlier one (error text, a result printed after a timeout, ...).
+func (s *Solver) sync() (lines []string, died bool) {
+	s.seq++
+	mark := fmt.Sprintf("#sync-%d#", s.seq)
+	s.raw("(echo \"" + mark + "\")")
+	for {
+		l, err := s.out.ReadString('\n')
+		if err != nil {
+			return lines, true
+		}
+		l = strings.TrimSpace(l)
+		if strings.Contains(l, mark) {
+			return lines, false
+		}
+		if l != "" {
+			lines = append(lines, l)
+		}
+	}
+}
+
 func (s *Solver) readResult() string {
 	wd := s.watchdog()
 	defer wd.Stop()
-	for {
-		l := s.readLine()
+	lines, died := s.sync()
+	if died {
+		s.Errors++
+		s.lastErr = "solver died"
+		// restart; context lost => caller treats as unknown
+		s.restartAfterDeath()
+		return "unknown"
+	}
+	res := ""
+	for _, l := range lines {
 		switch {
-		case l == "sat" || l == "unsat":
-			return l
-		case l == "unknown":
-			s.Unknown++
-			return "unknown"
-		case strings.HasPrefix(l, "(error"):
-			s.Errors++
-			s.lastErr = l
-			if strings.Contains(l, "solver died") {
-				// restart; context lost => caller treats as unknown
-				s.restartAfterDeath()
-				return "unknown"
+		case l == "sat" || l == "unsat" || l == "unknown":
+			if res == "" {
+				res = l
+			} else {
+				// two answers to one check-sat: do not trust either
+				s.Errors++
+				s.lastErr = "duplicate result: " + res + " / " + l
+				res = "unknown"
 			}
-			// keep reading: an error line precedes the actual result in z3
-			continue
-		case l == "":
-			continue
 		default:
-			s.lastErr = l
+			// an (error ...) line or anything unexpected makes the answer inconclusive:
+			// z3 can drop a command it rejects and still answer the rest
 			s.Errors++
-			return "unknown"
+			s.lastErr = l
+			if res == "" || res == "sat" || res == "unsat" {
+				res = "unknown"
+			}
 		}
 	}
+	if res == "" {
+		s.Errors++
+		s.lastErr = "no result line"
+		res = "unknown"
+	}
+	if res == "unknown" {
+		s.Unknown++
+	}
+	return res
 }
 
 // CheckModel runs check-sat with the extra assumption and, when sat, returns
@@ -307,8 +367,16 @@ func (s *Solver) CheckModel(assume *Term, vars []*Term) (string, Model) {
 	var m Model
 	if res == "sat" && len(names) > 0 {
 		s.raw("(get-value (" + strings.Join(names, " ") + "))")
-		sx := s.readSexp()
-		m = s.parseValues(sx, vars)
+		wd := s.watchdog()
+		lines, died := s.sync()
+		wd.Stop()
+		if died {
+			s.Errors++
+			s.lastErr = "solver died in get-value"
+			s.restartAfterDeath()
+			return "unknown", nil
+		}
+		m = s.parseValues(strings.Join(lines, "\n"), vars)
 	}
 	if !s.Lost {
 		s.raw("(pop 1)")
@@ -387,20 +455,35 @@ func parseSx(s string) *sx {
 	return parse()
 }
 
+// parseValues returns nil unless every requested variable has a parsed value:
+// a partial model would be completed with defaults that need not satisfy the
+// assertions.
 func (s *Solver) parseValues(txt string, vars []*Term) Model {
 	m := Model{}
+	txt = strings.TrimSpace(txt)
+	if !strings.HasPrefix(txt, "((") {
+		s.Errors++
+		s.lastErr = "get-value: " + txt
+		return nil
+	}
 	root := parseSx(txt)
-	if root == nil {
-		return m
+	if root == nil || len(root.list) != len(vars) {
+		s.Errors++
+		s.lastErr = "get-value: wrong arity"
+		return nil
 	}
 	for i, pair := range root.list {
-		if i >= len(vars) || len(pair.list) != 2 {
-			continue
+		if pair == nil || len(pair.list) != 2 {
+			return nil
 		}
 		v := vars[i]
-		if c := s.parseConst(pair.list[1], v.S); c != nil {
-			m[v.Name] = c
+		c := s.parseConst(pair.list[1], v.S)
+		if c == nil {
+			s.Errors++
+			s.lastErr = "get-value: unparsed value for " + v.Name
+			return nil
 		}
+		m[v.Name] = c
 	}
 	return m
 }
